@@ -8,6 +8,7 @@ package main
 // must equal the id of every block with the same dump.
 
 import (
+	"crypto/sha256"
 	"fmt"
 	"sort"
 	"strings"
@@ -46,7 +47,8 @@ type varResult struct {
 	ident blockIdent
 	panic string
 
-	sec        [4][32]byte    // reference content of header / txs / evidence / commit
+	strong     [32]byte       // the content without the partSetOnly components
+	sec        [4][32]byte    // reference content of header / txs / evidence / commit (likewise)
 	commit     [3]common.Hash // Data.Hash(), Evidence.Hash(), LastCommit.Hash() as the real code computes them
 	nilCommit  bool           // LastCommit removed: Block.Hash() is the empty hash "for safety", Commit.Hash() undefined
 	vbRejected bool           // ValidateBasic returned an error
@@ -121,7 +123,9 @@ func evalVariant(base *types.Block, ps []pert, v variant, sizes []int) (res varR
 	if v.refill {
 		res.dump = dumpHash(b) // the recomputed header fields are content too
 	}
-	res.sec = dumpSections(b)
+	sd := strongDump(dump(b))
+	res.strong = sha256.Sum256([]byte(sd))
+	res.sec = dumpSections(sd)
 	res.ok = true
 	return
 }
@@ -210,6 +214,35 @@ func diffSignature(a, b string) string {
 	}
 	sort.Strings(out)
 	return strings.Join(out, ",")
+}
+
+// partSetOnly: the two components of a block that the header hash does not cover BY DESIGN. Header.Recover is not
+// in the Header.Hash() map, and Commit.BlockID (a redundant copy of Header.LastBlockID that VerifyCommit ignores) is
+// not in Commit.Hash(). For them the statement's own alternative is judged: the part-set header must change (weaker
+// clause). They are excluded BY NAME from the strong clauses (block hash, commit hash, ValidateBasic); if the code ever
+// starts covering them the strong clauses simply hold as well. Reported in the evidence as observations.
+var partSetOnly = []string{"header.recover", "commit.id"}
+
+// strongDump removes the partSetOnly components from a dump: the content the strong clauses are about.
+func strongDump(d string) string {
+	lines := strings.Split(d, "\n")
+	out := lines[:0:0]
+	for i, l := range lines {
+		if i == 0 {
+			toks := strings.Fields(l)
+			kept := toks[:0:0]
+			for _, t := range toks {
+				if !strings.HasPrefix(t, "recover=") {
+					kept = append(kept, t)
+				}
+			}
+			l = strings.Join(kept, " ")
+		} else if strings.HasPrefix(l, "commit.id=") {
+			l = "commit.id=-"
+		}
+		out = append(out, l)
+	}
+	return strings.Join(out, "\n")
 }
 
 // ownerSet: for each commitment value the (few) distinct contents seen with it.
@@ -413,7 +446,7 @@ func checkIdentity(r *vk.Run, c blockCfg, sizes []int, pairs bool, st *identStat
 	var hashOwners [2]*ownerSet
 	for q := range hashOwners {
 		hashOwners[q] = newOwnerSet()
-		hashOwners[q].claim(baseRes.ident.hash.String(), baseDump, -1)
+		hashOwners[q].claim(baseRes.ident.hash.String(), baseRes.strong, -1)
 	}
 	var commitOwners [3]*ownerSet
 	for q := range commitOwners {
@@ -457,6 +490,7 @@ func checkIdentity(r *vk.Run, c blockCfg, sizes []int, pairs bool, st *identStat
 			}
 			return d
 		}
+		sdumpOf := func(j int) string { return strongDump(dumpOf(j)) }
 		// weaker clause: the part-set header alone (a hash of the serialization) differs for different content
 		for k, sz := range sizes {
 			key := pshKey(res.ident.parts[k])
@@ -480,8 +514,8 @@ func checkIdentity(r *vk.Run, c blockCfg, sizes []int, pairs bool, st *identStat
 			if v.refill {
 				class = 1
 			}
-			if conflicts := hashOwners[class].claim(res.ident.hash.String(), res.dump, i); len(conflicts) > 0 {
-				sig, o := minimalSignature(dumpOf(i), conflicts, dumpOf, false)
+			if conflicts := hashOwners[class].claim(res.ident.hash.String(), res.strong, i); len(conflicts) > 0 {
+				sig, o := minimalSignature(sdumpOf(i), conflicts, sdumpOf, false)
 				r.Violation(rootCauseKey("block-hash-collision:", sig),
 					fmt.Sprintf("block %v: two blocks that differ in {%s} have the same Block.Hash() %s: [%s] and [%s]", c, sig, res.ident.hash.String(), vname(i), vname(o)),
 					replayIdentity(c, ps, v, sizes))
@@ -494,7 +528,7 @@ func checkIdentity(r *vk.Run, c blockCfg, sizes []int, pairs bool, st *identStat
 			}
 			if conflicts := commitOwners[q].claim(res.commit[q].String(), res.sec[q+1], i); len(conflicts) > 0 {
 				sec := q + 1
-				sig, o := minimalSignature(sectionOf(dumpOf(i), sec), conflicts, func(j int) string { return sectionOf(dumpOf(j), sec) }, true)
+				sig, o := minimalSignature(sectionOf(sdumpOf(i), sec), conflicts, func(j int) string { return sectionOf(sdumpOf(j), sec) }, true)
 				r.Violation(rootCauseKey(commitName[q]+"-collision:", sig),
 					fmt.Sprintf("block %v: two different lists (they differ in {%s}) have the same %s %s: [%s] and [%s]", c, sig, commitName[q], res.commit[q].String(), vname(i), vname(o)),
 					replayIdentity(c, ps, v, sizes))
@@ -508,7 +542,7 @@ func checkIdentity(r *vk.Run, c blockCfg, sizes []int, pairs bool, st *identStat
 		if !v.refill && !headerTouched && !bodySame && !res.nilCommit && !res.vbRejected {
 			var sigs []string
 			for q := 1; q <= 3; q++ {
-				if sg := coarseSignature(sectionOf(dumpOf(i), q), sectionOf(dump(base), q)); sg != "" {
+				if sg := coarseSignature(sectionOf(sdumpOf(i), q), sectionOf(sdumpOf(-1), q)); sg != "" {
 					sigs = append(sigs, sg)
 				}
 			}
